@@ -4,8 +4,16 @@ Model: lean/IoraModel/Model/SyncRecv.lean (one step = one syncMutex critical sec
 Tie:   tools/tr_tsyncskel.py -> Gen/TsyncSkel.lean (lock/notify skeleton; the model is instantiated from it),
        harness/c03_syncrecv.cpp: (1) single-threaded lockstep over the scripted engine, (2) DetSched schedules of 2-4 thread
        programs whose recorded critical-section order is replayed by the Lean acceptor (trace inclusion).
-Monitors look only at what the real class returned/delivered and at the bytes the generator fed in."""
-import json, os
+       receiveSyncCancellable is a layer over the model (Model/SyncRecvW.lean: loop head + sub-calls; ops `recvc`/`rc:`/`x:`).
+       Thorough tier: bounded-exhaustive schedules (every schedule with at most K preemptions of a few small programs, enumerated
+       through DetSched's recorded alternatives) on top of the random ones.
+Monitors look only at what the real class returned/delivered and at the bytes the generator fed in.
+"In time": a Timeout answer before the requested time has passed (real time sequentially, virtual time under DetSched) or, in programs
+with a single waiting thread, later than timeout + 5 ms of virtual time is a violation; timeouts up to milliseconds::max() are generated
+(FC03b: the deadline arithmetic wrapped, UBSan abort / immediate Timeout).
+T8 (no data callback for a session after its close callback) is monitored on every case, mode switches of the dead id included (FC02a:
+setReadMode(Sync) then setReadMode(Async) on a closed tombstone flushed the tail through the callback; modelled as repaired)."""
+import json, os, re
 from vlib.core import Ctx, hexs, unhex, ddmin, VERIF
 
 ID = "C03"
@@ -33,11 +41,58 @@ OBLIGATIONS = [
      "statement": "a parked receive whose predicate (data/closed/overflow) holds has been notified, in every reachable state"},
     {"id": "C03_T7", "theorem": "Iora.C03.T7_late_receive", "kind": "proved",
      "statement": "without a tombstone GC pass, a receive entered after the close on a drained session answers PeerClosed at once"},
+    {"id": "C03_T1_events", "theorem": "Iora.C03.T1_out_is_events", "kind": "proved",
+     "statement": "the ghost field `out` is exactly the bytes of the emitted events (successful receives and callback deliveries of the session, in order), in every run"},
+    {"id": "C03_T1_step_events", "theorem": "Iora.C03.T1_step_out_is_events", "kind": "proved",
+     "statement": "every step, any state: out' = out ++ evBytes sid (the step's events)"},
+    {"id": "C03_T1_stream_events", "theorem": "Iora.C03.T1_stream_events", "kind": "proved",
+     "statement": "T1 stated over events only: evBytes(events) ++ inFlight ++ buffered ++ pending = accepted (= arrived when nothing was dropped)"},
+    {"id": "C03_T2_nogap", "theorem": "Iora.C03.T2_peerClosed_means_everything", "kind": "proved",
+     "statement": "outside teardown PeerClosed is never answered for a session one of whose chunks was dropped (overflow is reported instead): PeerClosed means out = arrived, no side condition"},
+    {"id": "C03_T4_recv", "theorem": "Iora.C03.T4_receive_ignores_mode", "kind": "proved",
+     "statement": "every reachable state: a receive entered on a session with buffered bytes returns them whatever the read mode (Disabled included)"},
+    {"id": "C03_T4_flush", "theorem": "Iora.C03.T4_disabled_to_async_flushes", "kind": "proved",
+     "statement": "setReadMode(Async) on a Disabled session takes the ordered-flush path; the mode does not become Async in its first critical section"},
+    {"id": "C03_T5_wake", "theorem": "Iora.C03.T5_overflow_wakes_parked", "kind": "proved",
+     "statement": "every reachable state: a parked receive whose buffer overflowed has been notified and its wake-up answers the buffered bytes, else BufferOverflow"},
+    {"id": "C03_T8_close", "theorem": "Iora.C03.T8_close_forgets_mode", "kind": "proved",
+     "statement": "every disciplined schedule: once the close of a session with no flush in progress has been processed the session is Quiet - a closed tombstone, no flush, NO readModes entry whatever was buffered, nothing pending for the callback"},
+    {"id": "C03_T8_nomode", "theorem": "Iora.C03.T8_tombstone_gets_no_mode", "kind": "proved",
+     "statement": "any state: setReadMode(sid, m), any m, on a session whose closed tombstone is still in the map is vacuous - it answers at once, delivers nothing and changes nothing (FC02a repaired): no mode can be registered again for a dead id while its tail is buffered"},
+    {"id": "C03_T8", "theorem": "Iora.C03.T8_nothing_delivered_after_close", "kind": "proved",
+     "statement": "every disciplined schedule: after the close of sid (no flush of sid in progress at that moment) NO later step hands bytes of sid to the data callback, WHATEVER mode switches follow - setReadMode(sid, Sync/Disabled) then Async on the dead id included (FC02a repaired); the buffered tail stays retrievable through receiveSync only (the one hypothesis shown necessary by an example)"},
+    {"id": "C03_T8_step", "theorem": "Iora.C03.T8_quiet_step", "kind": "proved",
+     "statement": "one step, any state: a Quiet session (closed; tombstone with no flush, or nothing buffered/held once the tombstone is gone) stays Quiet and the step - ANY disciplined step - delivers nothing of it"},
+    {"id": "C03_W0", "theorem": "Iora.C03.W0_wrapper_is_core", "kind": "proved",
+     "statement": "every execution using receiveSyncCancellable is a core execution (its base steps), disciplined if the wrapper run is: T1-T7 carry over"},
+    {"id": "C03_W1_ret", "theorem": "Iora.C03.W1_subcall_result_is_returned", "kind": "proved",
+     "statement": "whatever a sub-call of the wrapper answers other than Timeout (in particular ok bytes) is returned by the wrapper in the same step"},
+    {"id": "C03_W1_src", "theorem": "Iora.C03.W1_return_is_subcall_result", "kind": "proved",
+     "statement": "a wrapper return ok bytes is the result of a sub-call made in the same step"},
+    {"id": "C03_W1_timeout", "theorem": "Iora.C03.W1_timeout_consumes_nothing", "kind": "proved",
+     "statement": "a core step answering Timeout leaves the session's buffer and handed-out bytes untouched (looping over Timeouts loses and duplicates nothing)"},
+    {"id": "C03_W2", "theorem": "Iora.C03.W2_cancelled_only_if_cancelled", "kind": "proved",
+     "statement": "the wrapper answers Cancelled only if the token was cancelled or a sub-call answered Cancelled"},
+    {"id": "C03_W2_pre", "theorem": "Iora.C03.W2_precancelled", "kind": "proved",
+     "statement": "entered with a cancelled token the wrapper returns Cancelled without touching the core"},
+    {"id": "C03_W3", "theorem": "Iora.C03.W3_timeout_only_at_deadline", "kind": "proved",
+     "statement": "the wrapper answers Timeout only at a loop head that found the deadline passed, never by passing a sub-call's Timeout through"},
+    {"id": "C03_pinned", "theorem": "Iora.C03.skeleton_pinned", "kind": "proved",
+     "statement": "onData, receiveSync, setReadMode and step 6 of onClose have EXACTLY the skeleton the model was written against (list equality), receiveSyncCancellable is exactly the loop the wrapper model mirrors, receiveSync waits under the caller's lock until now()+timeout and answers Timeout exactly for an unsignalled wait, timeouts are saturated before clock arithmetic (FC03b), onClose step 6 erases the readModes entry exactly once and unconditionally, setReadMode returns at once for a closed tombstone before it touches readModes (FC02a) (decide)"},
     {"id": "C03_skel", "theorem": "Iora.C03.skeleton_conforms", "kind": "proved",
      "statement": "the regenerated lock/notify skeleton has the facts the model is instantiated from: notify after write under the lock, mode read + append under one lock, callback unlocked, hasData computed from the buffer, drain keyed on the buffer, the flush switches to Async only in a section that found the buffer empty (decide)"},
 ]
 
 SIZES = [0, 1, 2, 3, 5, 10, 16, 64, 1000, 65535, 65536, 70000, 1048576]
+HUGE = [9223372036854775807, 9223372036854775, 9223372036854, 4294967296, 3000]     # ms; milliseconds::max() = "no timeout"
+
+
+TAG = re.compile(r"!(?:early|late|cancel-late)-after-\d+ms|!forced-timeout")
+
+
+def strip_tag(x):
+    """the harness tags a Timeout that came too early / too late (`err:Timeout!early-after-0ms`); the model never prints a tag"""
+    return ";".join(e.split("!")[0] for e in x.split(";"))
 
 
 def payload(sid, pos, n):
@@ -60,9 +115,12 @@ def gen_seq_case(rng, big):
     n = rng.range(4, 60 if not big else 25)
     pend = {s: 0 for s in sids}      # generator's guess of the buffered byte count (steers sizes to the interesting region only)
     ovf = set()
+    gmode = {}
+    cancelled = set()
     for s in sids:
         if rng.chance(4, 5):
             ops.append("mode %d s" % s)
+            gmode[s] = "s"
     for _ in range(n):
         s = rng.choice(sids)
         if s in ovf and rng.chance(2, 3):
@@ -91,11 +149,39 @@ def gen_seq_case(rng, big):
                 pend[s] += ln
         elif k < 72:
             ln = rng.choice([0, 1, 2, 3, 5, rng.range(0, 20), pend[s], pend[s] + 1, max(pend[s] - 1, 0), 70000])
-            ops.append("recv %d %d %d" % (s, ln, rng.choice([0, 0, 0, 1])))
-            pend[s] = max(0, pend[s] - ln)
+            j = rng.below(20)
+            if j < 3:
+                # receiveSyncCancellable (timeout 0 = the loop is never entered; 5/120 ms = one / two sub-intervals)
+                ops.append("recvc %d %d %d" % (s, ln, rng.choice([0, 5, 5, 120])))
+                if s not in cancelled and ops[-1].split()[3] != "0":
+                    pend[s] = max(0, pend[s] - ln)
+            elif j == 3 and not cancelled.issuperset([s]):
+                ops.append("cancel %d" % s)
+                cancelled.add(s)
+            elif j == 4 and allow and gmode.get(s) == "s" and s not in dead and s not in ovf and not fence and maxbuf - pend[s] >= 1 and ln >= 1:
+                # a receive with a long / "infinite" timeout on a second thread; the chunk arrives once it is parked
+                cl = rng.range(1, min(maxbuf - pend[s], 8))
+                ops.append("recvlong %d %d %d %s" % (s, ln, rng.choice(HUGE), hexs(payload(s, pos[s], cl))))
+                pos[s] += cl
+                pend[s] = max(0, pend[s] + cl - ln)
+            elif j == 5 and allow and gmode.get(s) == "s" and s not in dead and not fence:
+                # huge timeout where the predicate surely holds (a byte has just arrived on a live Sync session: buffered or overflow):
+                # must answer at once
+                ops.append("data %d %s" % (s, hexs(payload(s, pos[s], 1))))
+                pos[s] += 1
+                if pend[s] + 1 > maxbuf:
+                    ovf.add(s)
+                else:
+                    pend[s] += 1
+                ops.append("recv %d %d %d" % (s, ln, rng.choice(HUGE[:4])))
+                pend[s] = max(0, pend[s] - ln)
+            else:
+                ops.append("recv %d %d %d" % (s, ln, rng.choice([0, 0, 0, 1])))
+                pend[s] = max(0, pend[s] - ln)
         elif k < 90:
             m = rng.choice(["a", "s", "s", "s", "d"])
             ops.append("mode %d %s" % (s, m))
+            gmode[s] = m
             if m == "a":
                 pend[s] = 0
         elif k < 96:
@@ -105,6 +191,13 @@ def gen_seq_case(rng, big):
                 disciplined = False
             ops.append("close %d" % s)
             dead.add(s)
+            gmode.pop(s, None)
+            if rng.chance(1, 3):
+                # FC02a: put the dead id back into Sync/Disabled, then ask for Async (must not flush the tail through the callback)
+                ops.append("mode %d %s" % (s, rng.choice(["s", "s", "d"])))
+                if rng.chance(1, 3):
+                    ops.append("recv %d %d 0" % (s, rng.choice([1, 2, 70000])))
+                ops.append("mode %d a" % s)
         elif k < 98 and rng.chance(1, 4):
             ops.append("fence %d" % rng.below(2))
             fence = True
@@ -130,8 +223,12 @@ def seq_monitor(c, impl):
     ovf_expected = set()
     skip = set()
     fence = False
+    cancelled = set()
     for op, l in zip(c["ops"], impl):
         t = op.split()
+        if t[0] == "recvlong":
+            # the chunk is delivered while the receive is parked (or after it returned): it has arrived when the answer is looked at
+            pass
         if l.startswith("crash:") or l.startswith("throw"):
             bad.append("X: the sync layer crashes/throws: %s -> %s" % (op[:60], l[:80]))
             break
@@ -139,6 +236,9 @@ def seq_monitor(c, impl):
             continue
         if t[0] == "fence":
             fence = True
+            continue
+        if t[0] == "cancel":
+            cancelled.add(int(t[1]))
             continue
         sid = int(t[1])
         arrived.setdefault(sid, bytearray())
@@ -151,6 +251,10 @@ def seq_monitor(c, impl):
                 if e.startswith("cb:"):
                     _, s2, hx = e.split(":")
                     out.setdefault(int(s2), bytearray()).extend(unhex(hx))
+                    if int(s2) in dead:
+                        bad.append("T8: %d byte(s) of session %d were handed to the data callback by `%s` AFTER the session's close had been "
+                                   "processed (a closed session has no read mode and can get none: no later mode switch may flush; the "
+                                   "buffered tail is for receiveSync only)" % (len(hx) // 2, int(s2), op[:40]))
         if t[0] == "data":
             chunk = unhex(t[2])
             m = mode.get(sid, "a")
@@ -158,8 +262,24 @@ def seq_monitor(c, impl):
                 if m == "s" and len(arrived[sid]) - len(out[sid]) + len(chunk) > maxbuf and sid not in ovf_expected and not fence:
                     ovf_expected.add(sid)
                 arrived[sid].extend(chunk)
-        elif t[0] == "recv":
+        elif t[0] in ("recv", "recvc", "recvlong"):
             r = head.split()[0]
+            if "!early" in r:
+                bad.append("T6/in-time: `%s` answered %s although the requested timeout had not passed" % (op[:60], r))
+            elif "!late" in r:
+                bad.append("T6/in-time: `%s` answered %s, more than 1.5 s after its timeout" % (op[:60], r))
+            r = r.split("!")[0]
+            if t[0] == "recvlong":
+                chunk = unhex(t[4])
+                if mode.get(sid, "a") != "d":
+                    arrived[sid].extend(chunk)
+            if t[0] == "recvc":
+                if sid in cancelled and r != "err:Cancelled":
+                    bad.append("W2: receiveSyncCancellable entered with a cancelled token answered %s" % r)
+                if r == "err:Cancelled" and sid not in cancelled:
+                    bad.append("W2: receiveSyncCancellable answered Cancelled although its token was never cancelled")
+            elif r == "err:Cancelled":
+                bad.append("T1: a single-threaded receiveSync answered Cancelled (no other waiter, no flush)")
             if r.startswith("ok:"):
                 got = unhex(r[3:])
                 if len(got) > int(t[2]):
@@ -181,6 +301,8 @@ def seq_monitor(c, impl):
             elif r == "err:ShuttingDown":
                 if not fence:
                     bad.append("T1: receive answered ShuttingDown on a live session although no teardown began (after `%s`)" % op[:40])
+            elif r == "err:Timeout" and t[0] == "recvc" and t[3] == "0":
+                pass          # receiveSyncCancellable with timeout 0 never enters its loop: Timeout without looking at the buffer
             elif r == "err:Timeout":
                 if sid in ovf_seen and not fence and sid not in skip and c["gc"] >= 16:   # a GC pass may reclaim a closed, drained, overflowed tombstone
                     bad.append("T5: a receive after BufferOverflow answered Timeout (overflow not sticky)")
@@ -192,7 +314,8 @@ def seq_monitor(c, impl):
                     bad.append("T1: receive timed out although %d arrived bytes have not been returned" % (len(arrived[sid]) - len(out[sid])))
         elif t[0] == "mode":
             if head.split()[0] == "ret:1":
-                mode[sid] = t[2]
+                if sid not in dead:          # setReadMode on a closed id is vacuous (FC02a): it answers true and registers nothing
+                    mode[sid] = t[2]
                 if t[2] == "a" and sid in ovf_expected:
                     # setReadMode(Async) after an overflow resumes callback delivery past the gap; the overflow is reported to
                     # synchronous readers only (recorded as an assumption) - the stream monitors stop here for this session
@@ -223,7 +346,37 @@ def seq_monitor(c, impl):
 
 # ------------------------------------------------------------------ DetSched programs
 def gen_sched_case(rng, idx):
-    kind = rng.choice(["parked", "midflush", "mixed", "mixed", "two-sessions", "close-race", "fence", "flush-window", "flush-window", "flush-window"])
+    kind = rng.choice(["parked", "midflush", "mixed", "mixed", "two-sessions", "close-race", "fence", "flush-window", "flush-window", "flush-window",
+                       "wrapper", "wrapper", "long-timeout"])
+    if kind == "wrapper":
+        # receiveSyncCancellable: sub-calls timing out, arrivals between sub-calls, a cancel at every point of the loop
+        n = rng.range(1, 4)
+        io = []
+        for k in range(n):
+            io += ["y"] * rng.range(0, 3)
+            io.append("d:1:%s" % hexs(payload(1, 2 * k, 2)))
+        closes = rng.chance(1, 3)
+        if closes:
+            io.append("c:1")
+        app = ["m:1:s"]
+        for _ in range(rng.range(1, 3)):
+            app.append("rc:1:%d:%d" % (rng.choice([1, 2, 3, 100]), rng.choice([0, 50, 120, 250, 350])))
+        canc = rng.chance(1, 2)
+        apps = [app + ["m:1:a"]]
+        if canc:
+            apps.append(["y"] * rng.range(0, 6) + ["x:1"])
+        return {"cat": "sched-wrapper", "seed": rng.below(2 ** 31), "timeoutOneIn": rng.choice([0, 0, 4]), "spuriousOneIn": rng.choice([0, 0, 6]),
+                "maxbuf": 1000, "io": io, "apps": apps, "sids": [1], "total": {1: 2 * n}, "uses_disabled": False, "overflow_possible": False,
+                "fence": False, "ends_async": True, "timed_threads": 1}
+    if kind == "long-timeout":
+        # a receive with a timeout up to milliseconds::max() parks until the data (or the close) arrives: never an early Timeout
+        io = ["y"] * rng.range(0, 3) + ["d:1:%s" % hexs(payload(1, 0, 3))] + ["y"] * rng.range(0, 2) + ["c:1"]
+        # only the FIRST call may be the cancellable one: once EOF has been reported a wrapper with a 100-year deadline would poll for ever
+        app = ["m:1:s", "%s:1:%d:%d" % (rng.choice(["r", "r", "rc"]), rng.choice([1, 3, 100]), rng.choice(HUGE[:4])),
+               "r:1:100:%d" % rng.choice(HUGE[:4]), "r:1:100:%d" % rng.choice(HUGE[:4])]
+        return {"cat": "sched-long-timeout", "seed": rng.below(2 ** 31), "timeoutOneIn": 0, "spuriousOneIn": rng.choice([0, 6]),
+                "maxbuf": 1000, "io": io, "apps": [app], "sids": [1], "total": {1: 3}, "uses_disabled": False, "overflow_possible": False,
+                "fence": False, "ends_async": False, "timed_threads": 1}
     if kind == "flush-window":
         # arrivals racing the window between the flusher's unlock and the end of its data callback (the harness callback yields
         # at entry and exit): every chunk must stay behind the flushed bytes
@@ -235,7 +388,8 @@ def gen_sched_case(rng, idx):
             io.append("d:1:%s" % hexs(payload(1, k, 1)))
         app = ["m:1:s"] + ["y"] * rng.range(0, 2) + ["m:1:a"]
         return {"cat": "sched-flush-window", "seed": rng.below(2 ** 31), "timeoutOneIn": 0, "spuriousOneIn": 0, "maxbuf": 1000, "io": io,
-                "apps": [app], "sids": [1], "total": {1: n}, "uses_disabled": False, "overflow_possible": False, "fence": False, "ends_async": True}
+                "apps": [app], "sids": [1], "total": {1: n}, "uses_disabled": False, "overflow_possible": False, "fence": False, "ends_async": True,
+                "timed_threads": 0}
     maxbuf = rng.choice([4, 8, 16, 64, 1000])
     nsess = 2 if kind == "two-sessions" else 1
     sids = [1, 2][:nsess]
@@ -298,11 +452,14 @@ def gen_sched_case(rng, idx):
     overflow_possible = any(total[s] > maxbuf for s in sids)
     return {"cat": "sched-" + kind, "seed": rng.below(2 ** 31), "timeoutOneIn": rng.choice([0, 4, 8]), "spuriousOneIn": rng.choice([0, 0, 6]),
             "maxbuf": maxbuf, "io": io, "apps": apps + extra, "sids": sids, "total": total, "uses_disabled": uses_disabled,
-            "overflow_possible": overflow_possible, "fence": kind == "fence", "ends_async": kind != "fence"}
+            "overflow_possible": overflow_possible, "fence": kind == "fence", "ends_async": kind != "fence", "timed_threads": nsess}
 
 
 def sched_line(c, choices=None):
-    first = ("c:" + ",".join(map(str, choices))) if choices is not None else ("c:" + c["choices"] if "choices" in c else str(c["seed"]))
+    if "explore" in c and choices is None:
+        first = "e:" + ",".join(map(str, c["explore"]))
+    else:
+        first = ("c:" + ",".join(map(str, choices))) if choices is not None else ("c:" + c["choices"] if "choices" in c else str(c["seed"]))
     parts = ["sched", first, str(c["timeoutOneIn"]), str(c["spuriousOneIn"]), str(c["maxbuf"]), "1024", "io"] + c["io"]
     for a in c["apps"]:
         parts += ["app"] + a
@@ -310,6 +467,7 @@ def sched_line(c, choices=None):
 
 
 def parse_sched(line):
+    """status | steps | choices | final states | report | [alternatives]"""
     if line.startswith("crash:") or " | " not in line:
         return None
     parts = line.split(" | ")
@@ -324,7 +482,18 @@ def parse_sched(line):
         lhs, obs = tok.split("=>", 1)
         f = lhs.split(",")
         steps.append({"tid": int(f[0]), "step": " ".join(f[1:]), "obs": obs})
-    return {"status": status.split()[0], "steps": steps, "choices": parts[2].strip() if len(parts) > 2 else "", "report": parts[3] if len(parts) > 3 else ""}
+    final = {}
+    if len(parts) > 3 and parts[3].strip() not in ("-", ""):
+        for x in parts[3].strip().split(";"):
+            sid, _, st = x.partition(":")
+            final[int(sid)] = st.replace(",", " ")
+    alts = {}
+    if len(parts) > 5 and parts[5].strip() not in ("-", ""):
+        for x in parts[5].strip().split(","):
+            i, _, a = x.partition(":")
+            alts[int(i)] = [int(y) for y in a.split(".")]
+    return {"status": status.split()[0], "steps": steps, "choices": parts[2].strip() if len(parts) > 2 else "", "final": final,
+            "report": parts[4] if len(parts) > 4 else "", "alts": alts}
 
 
 def sched_monitor(c, res):
@@ -338,19 +507,68 @@ def sched_monitor(c, res):
     arrived = {s: bytearray() for s in c["sids"]}
     out = {s: bytearray() for s in c["sids"]}
     closed = set()
+    cancelled = set()
+    wcall_cancelled = {}     # sid -> the token was already cancelled when the running wrapper call was entered
+    flush_on = {}            # sid -> a setReadMode(sid, Async) flush is in progress (began, has not returned)
+    grace = set()            # sids whose flush was in progress when their close was processed: that flush goes on delivering
     for st in res["steps"]:
         f = st["step"].split()
         if f[0] == "ioData":
             arrived[int(f[1])].extend(unhex(f[2]))
         elif f[0] == "ioClose":
             closed.add(int(f[1]))
+            if flush_on.get(int(f[1])):
+                grace.add(int(f[1]))
+        elif f[0] == "setMode":
+            sidm = int(f[1])
+            if "modeRet:" not in st["obs"]:
+                flush_on[sidm] = f[2] == "a"          # the first critical section did not return: the flush path was taken
+        elif f[0] == "cancel":
+            cancelled.add(int(f[1]))
+        elif f[0] == "wCall":
+            wcall_cancelled[int(f[1])] = int(f[1]) in cancelled
+        elif f[0] == "wLoop" and f[2] == "0" and int(f[1]) in cancelled and "wrapRet:" not in st["obs"]:
+            # the loop head runs in the scheduling slice that follows the previous sub-call's unlock; the cancel's store to the token
+            # happened in an earlier slice: this head must have seen it
+            bad.append("W2/cancel: session %d's token was cancelled before this loop head of receiveSyncCancellable, which nevertheless "
+                       "started another sub-call (a cancel must be honoured within one sub-interval)" % int(f[1]))
         for e in st["obs"].split(";"):
+            if e.startswith("modeRet:"):
+                sidm = int(e.split(":")[1])
+                if flush_on.get(sidm) and f[0] == "flushStep":
+                    flush_on[sidm] = False
+                    grace.discard(sidm)
             if e.startswith("cb:"):
                 _, s2, hx = e.split(":")
                 out[int(s2)].extend(unhex(hx))
-            elif e.startswith("recvRet:"):
+                if int(s2) in closed and int(s2) not in grace:
+                    bad.append("T8: %d byte(s) of session %d were handed to the data callback (step `%s`) AFTER the session's close had been "
+                               "processed and no flush was in progress at the close" % (len(hx) // 2, int(s2), st["step"]))
+            elif e.startswith("recvRet:") or e.startswith("wrapRet:"):
+                wrapped = e.startswith("wrapRet:")
+                if "!cancel-late" in e and c.get("timed_threads", 2) <= 1:
+                    bad.append("W2/cancel latency: %s - the token had been cancelled more than one sub-interval (100 ms) + 5 ms of virtual time "
+                               "before receiveSyncCancellable returned" % e)
+                if "!early" in e:
+                    bad.append("T6/in-time: %s - Timeout although the requested time had not passed (virtual time)" % e)
+                elif "!late" in e and c.get("timed_threads", 2) <= 1:
+                    bad.append("T6/in-time: %s - Timeout later than the requested time + 5 ms of virtual time (single waiting thread)" % e)
+                forced = "!forced-timeout" in e
+                e = e.split("!")[0]
                 p = e.split(":")
                 s2 = int(p[1])
+                if forced and not c["fence"] and not (p[2] == "err" and p[3] in ("Timeout", "ShuttingDown")):
+                    # DetSched fired this sleeper's time-out because NO thread could run, so nothing changed between the time-out and
+                    # the re-acquisition: the predicate already held while the receiver slept un-notified
+                    bad.append("T6: the receive of session %d answered %s but was woken only by a forced time-out (no thread could run): the "
+                               "event that made its predicate true did not notify it (lost notification)" % (s2, ":".join(p[2:])[:40]))
+                if wrapped:
+                    if wcall_cancelled.get(s2) and not (p[2] == "err" and p[3] == "Cancelled"):
+                        bad.append("W2: receiveSyncCancellable entered with a cancelled token answered %s" % ":".join(p[2:]))
+                    if p[2] == "err" and p[3] == "Cancelled" and s2 not in cancelled:
+                        bad.append("W2: receiveSyncCancellable answered Cancelled although its token was never cancelled")
+                elif p[2] == "err" and p[3] == "Cancelled":
+                    bad.append("T1: receiveSync answered Cancelled although no other receive or flush of session %d was in progress" % s2)
                 if p[2] == "ok":
                     out[s2].extend(unhex(p[3]))
                 elif p[3] == "ShuttingDown" and not c["fence"]:
@@ -386,7 +604,8 @@ def sched_monitor(c, res):
     return bad
 
 
-def run_sched(ctx, hb, cases, dist):
+def run_sched(ctx, hb, cases, dist, keep=False):
+    """Runs the programs on the real class, judges them, replays every trace in the Lean acceptor. Returns the parsed results (keep=True)."""
     lines = [sched_line(c) for c in cases]
     outs = []
     k = 0
@@ -405,15 +624,19 @@ def run_sched(ctx, hb, cases, dist):
         parsed.append(res)
         a = len(model_lines)
         model_lines.append("reset %d 1024 1" % c["maxbuf"])
+        nst = 0
         if res:
             for st in res["steps"]:
                 model_lines.append("st " + st["step"])
-        spans.append((a, len(model_lines)))
+            nst = len(res["steps"])
+            for sid in sorted(res["final"]):
+                model_lines.append("state %d" % sid)
+        spans.append((a, nst, len(model_lines)))
     mout, mrc, merr = ctx.run_lines(ctx.model_argv("syncrecv"), model_lines, timeout=1200)
     if mrc != 0 or len(mout) != len(model_lines):
         raise RuntimeError("model driver failed on schedule replay rc=%s lines=%d/%d %s" % (mrc, len(mout), len(model_lines), merr[-300:]))
     n_mis = 0
-    for c, l, res, (a, b) in zip(cases, outs, parsed, spans):
+    for c, l, res, (a, nst, b) in zip(cases, outs, parsed, spans):
         dist[c["cat"]] = dist.get(c["cat"], 0) + 1
         ctx.cov["traces_validated_against_impl"] += 1
         if l.startswith("crash:"):
@@ -426,6 +649,11 @@ def run_sched(ctx, hb, cases, dist):
             nsw = sum(1 for x, y in zip(res["steps"], res["steps"][1:]) if x["tid"] != y["tid"])
             for st in res["steps"]:
                 dist["step:" + st["step"].split()[0]] = dist.get("step:" + st["step"].split()[0], 0) + 1
+                for e in st["obs"].split(";"):
+                    if e.startswith("wrapRet:"):
+                        r = e.split("!")[0].split(":", 2)[2]
+                        r = "ok" if r.startswith("ok:") else r
+                        dist["wrapRet:" + r] = dist.get("wrapRet:" + r, 0) + 1
         ctx.count_case(sched_line(c) + "|" + (res["choices"] if res else ""), nontrivial=nsw >= 2)
         if len(ctx.cov["samples"]) < 6 and ctx.rng.chance(1, 60) and res:
             ctx.sample({"cat": c["cat"], "line": sched_line(c)[:300], "steps": ["%d:%s=>%s" % (s["tid"], s["step"], s["obs"]) for s in res["steps"][:14]]})
@@ -436,26 +664,105 @@ def run_sched(ctx, hb, cases, dist):
                                                  "note": "replay: feed the op line to the harness; the schedule is the recorded DetSched choice list"},
                           found_input=True)
             continue
-        if not res:
+        if not res or res["status"] != "ok":
             continue
         undisc = False
-        for st, ml in zip(res["steps"], mout[a + 1:b]):
+        mism = None
+        for st, ml in zip(res["steps"], mout[a + 1:a + 1 + nst]):
             ans, _, d = ml.rpartition(" d=")
             if d == "0":
                 undisc = True
-            if ans != st["obs"]:
-                n_mis += 1
-                if n_mis <= 3:
-                    ctx.violation("correspondence", "acceptor: the model cannot explain the recorded trace of the real class (no property monitor fails): "
-                                  "step `%s` observed `%s`, model `%s`" % (st["step"], st["obs"][:100], ans[:100]),
-                                  {"broken": {"correspondence": "syncrecv trace inclusion (harness/c03_syncrecv.cpp under DetSched vs Model/SyncRecv.lean)",
-                                              "detail": "step %s" % st["step"]},
-                                   "ops": [sched_line(c, choices=[int(x) for x in res["choices"].split(",")])],
-                                   "observed": ["%d:%s=>%s" % (s["tid"], s["step"], s["obs"]) for s in res["steps"]],
-                                   "expected_by_model": mout[a + 1:b]}, found_input=False)
+            if ans != strip_tag(st["obs"]):
+                mism = "step `%s` observed `%s`, model `%s`" % (st["step"], st["obs"][:100], ans[:100])
                 break
+        if mism is None:
+            # the state the real class ended in, session by session, against the model's state after the replay
+            for sid, ml in zip(sorted(res["final"]), mout[a + 1 + nst:b]):
+                if ml != res["final"][sid]:
+                    mism = "final state of session %d: real class `%s`, model `%s`" % (sid, res["final"][sid], ml)
+                    break
+        if mism:
+            n_mis += 1
+            if n_mis <= 3:
+                ctx.violation("correspondence", "acceptor: the model cannot explain the recorded trace of the real class (no property monitor fails): " + mism,
+                              {"broken": {"correspondence": "syncrecv trace inclusion (harness/c03_syncrecv.cpp under DetSched vs Model/SyncRecv.lean, Model/SyncRecvW.lean)",
+                                          "detail": mism},
+                               "ops": [sched_line(c, choices=[int(x) for x in res["choices"].split(",")])],
+                               "observed": ["%d:%s=>%s" % (s["tid"], s["step"], s["obs"]) for s in res["steps"]] + ["%d:%s" % kv for kv in sorted(res["final"].items())],
+                               "expected_by_model": mout[a + 1:b]}, found_input=False)
         if undisc:
             dist["sched-undisciplined"] = dist.get("sched-undisciplined", 0) + 1
+    return parsed if keep else None
+
+
+# ------------------------------------------------------------------ bounded-exhaustive schedules
+EXPLORE_PROGRAMS = [
+    # (name, maxbuf, io ops, app threads, monitor flags)
+    ("parked-data-close", 1000, ["d:1:0716", "c:1"], [["m:1:s", "r:1:1:50", "r:1:8:50", "r:1:8:50"]], {"ends_async": False}),
+    ("flush-vs-arrivals", 1000, ["d:1:07", "d:1:16", "d:1:25"], [["m:1:s", "m:1:a"]], {"ends_async": True}),
+    ("overflow-parked", 2, ["d:1:0716", "d:1:25"], [["m:1:s", "r:1:8:50", "r:1:8:50"]], {"ends_async": False, "overflow_possible": True}),
+    ("wrapper-cancel", 1000, ["d:1:0716"], [["m:1:s", "rc:1:1:120", "rc:1:8:120"], ["x:1"]], {"ends_async": False}),
+    ("disabled-async", 1000, ["d:1:07", "d:1:16"], [["m:1:s", "m:1:d", "m:1:a"]], {"ends_async": True, "uses_disabled": True}),
+    # T8 / FC02a: the close racing the application's attempts to put the id back into Sync and flush it
+    ("close-vs-rearm", 1000, ["d:1:0716", "c:1"], [["m:1:s", "m:1:s", "m:1:a", "r:1:8:5"]], {"ends_async": False}),
+]
+
+
+def explore(ctx, hb, dist, bound, max_runs):
+    """Every schedule of each small program with at most `bound` preemptions (CHESS-style: DetSched completes a choice prefix without
+    preemptions and reports every decision's alternatives; siblings are generated with their exact preemption cost). Time-outs and which
+    sleeper a notify wakes are free choices when the running thread blocks; a time-out while it can still run counts as a preemption."""
+    for name, maxbuf, io, apps, flags in EXPLORE_PROGRAMS:
+        base = {"cat": "explore-" + name, "seed": 0, "timeoutOneIn": 0, "spuriousOneIn": 0, "maxbuf": maxbuf, "io": io, "apps": apps, "sids": [1],
+                "total": {1: 0}, "uses_disabled": False, "overflow_possible": False, "fence": False, "ends_async": False, "timed_threads": 1}
+        base.update(flags)
+        frontier = [([], 0)]          # (choice prefix, preemptions spent)
+        seen = set()
+        runs = 0
+        complete = True
+        while frontier:
+            if runs >= max_runs:
+                complete = False
+                break
+            batch, frontier = frontier[:400], frontier[400:]
+            batch = batch[:max_runs - runs]
+            cases = [dict(base, explore=p) for p, _ in batch]
+            results = run_sched(ctx, hb, cases, dist, keep=True)
+            runs += len(cases)
+            for (prefix, spent), res in zip(batch, results):
+                if not res or not res["choices"]:
+                    continue
+                ch = [int(x) for x in res["choices"].split(",")]
+                cur = 0
+                cur_at = []
+                for x in ch:
+                    cur_at.append(cur)
+                    if x & 3 == 0:
+                        cur = x >> 2
+                for i in sorted(res["alts"]):
+                    if i < len(prefix) or i >= len(ch):
+                        continue
+                    al = res["alts"][i]
+                    has_run = any(a & 3 == 0 for a in al)
+                    cur_enabled = any(a & 3 == 0 and (a >> 2) == cur_at[i] for a in al)
+                    for a in al:
+                        if a == ch[i]:
+                            continue
+                        if a & 3 == 0:
+                            cost = 1 if (cur_enabled and (a >> 2) != cur_at[i]) else 0
+                        elif a & 3 == 1:
+                            cost = 1 if has_run else 0
+                        else:
+                            cost = 0
+                        if spent + cost > bound:
+                            continue
+                        p = tuple(ch[:i] + [a])
+                        if p in seen:
+                            continue
+                        seen.add(p)
+                        frontier.append((list(p), spent + cost))
+        dist["explore:%s:runs" % name] = runs
+        dist["explore:%s:complete(K=%d)" % (name, bound)] = 1 if complete else 0
 
 
 # ------------------------------------------------------------------ run
@@ -468,7 +775,7 @@ def run(ctx: Ctx):
     if ok_build:
         ctx.audit(MODULES, OBLIGATIONS)
         if not quick:
-            ctx.leanchecker(MODULES + ["IoraModel.Lemmas.SyncRecv", "IoraModel.Model.SyncRecv", "IoraModel.Model.SyncRecvGen", "IoraModel.Model.TsyncFacts", "IoraModel.Gen.TsyncSkel"])
+            ctx.leanchecker(MODULES + ["IoraModel.Lemmas.SyncRecv", "IoraModel.Lemmas.SyncRecvG", "IoraModel.Lemmas.SyncRecvT8", "IoraModel.Lemmas.SyncRecvW", "IoraModel.Model.SyncRecv", "IoraModel.Model.SyncRecvW", "IoraModel.Model.SyncRecvGen", "IoraModel.Model.TsyncFacts", "IoraModel.Gen.TsyncSkel"])
     else:
         ctx.cov["obligations"] = len(OBLIGATIONS)
     hb = ctx.build_harness("harness/c03_syncrecv.cpp", sanitize=True, flags=[DETSCHED])
@@ -496,7 +803,7 @@ def run(ctx: Ctx):
             if len(ctx.cov["samples"]) < 3 and ctx.rng.chance(1, 100):
                 ctx.sample({"cat": c["cat"], "ops": [o[:80] for o in c["ops"][:10]], "impl": [l[:100] for l in impl[:10]]})
             fails = seq_monitor(c, impl)
-            mism = [(i, a, b) for i, (a, b) in enumerate(zip(impl, model)) if a != b]
+            mism = [(i, a, b) for i, (a, b) in enumerate(zip(impl, model)) if TAG.sub("", a) != b]
             if fails:
                 report_seq(ctx, hb, c, impl, model, fails)
             elif mism:
@@ -511,15 +818,26 @@ def run(ctx: Ctx):
         r2 = rng.fork("sched")
         scases = [c for c in corpus if c.get("cat") == "sched"] + [gen_sched_case(r2, i) for i in range(500 * scale)]
         run_sched(ctx, hb, scases, dist)
+        # bounded-exhaustive: quick = every schedule with at most 1 preemption (capped), thorough = at most 2 preemptions
+        explore(ctx, hb, dist, bound=1 if quick else 2, max_runs=400 if quick else 20000)
     ctx.extra["input_distribution"] = dist
     ctx.extra["repo_tree_sha"] = ctx.repo_tree_sha(ANCHOR_FILES)
     ctx.extra["not_proved"] = [
-        "wall-clock behaviour of wait_until (timeouts are scheduler choices of the model / DetSched)",
+        "wall-clock behaviour of wait_until: timeouts are scheduler choices of the model / DetSched. TIED, not proved: receiveSync waits under "
+        "the caller's lock until now() + (saturated) timeout and answers Timeout exactly for an unsignalled wait, and the wrapper's deadline / "
+        "sub-interval arithmetic (skeleton_pinned, decide); monitors: no Timeout before the requested time (real and virtual), none later than "
+        "+5 ms of virtual time in programs with one waiting thread, +1.5 s real time sequentially; timeouts up to milliseconds::max() generated",
+        "schedules are sampled at random in both tiers; on top, EVERY schedule with at most K preemptions (K=1 quick, capped; K=2 thorough) of "
+        "six small programs is enumerated - bounded, not exhaustive, exploration (input_distribution explore:*)",
         "two application threads using one session concurrently (a receive overlapping a setReadMode(Async) of the same session, or two "
         "concurrent flushes) are outside the property's quantifier and outside `Disciplined`; the code does not reject them",
         "teardown interplay (fence) is part of the model but the stream theorems about drops under the fence are C05's",
     ]
     ctx.assumptions += [
+        "T8 does not cover one situation, shown by an example in Props/C03.lean to be what the code does: a setReadMode(Async) flush "
+        "already in progress on another thread when the close is processed goes on handing the buffered bytes to the callback "
+        "(modelled as repaired, fixes/FC02a-*: setReadMode is a no-op for a closed tombstone, so a dead id cannot be put back into "
+        "Sync/Disabled and flushed later)",
         "engine contract (C02): no data and no second close for a closed session id (zero-length chunks are legal arrivals and are generated)",
         "a data callback is registered (the flush and the Async path silently discard bytes when none is set)",
         "tombstone GC (syncBufferGcThreshold) may erase a drained tombstone: a later receive on that id then waits for its timeout (T7 is stated without a GC pass)",
